@@ -237,6 +237,7 @@ theorem semEngine_mono (n : Node α) (env : Env α) {rs rs' : List (Res α)} (h 
   obtain ⟨k, c, nm, val, ks, ms, f⟩ := n
   cases k
   case divide => exact bin_mono h _ v hv
+  case times => exact bin_mono h _ v hv
   case powConst => exact un_mono h _ v hv
   all_goals (simp only [semEngine] at hv ⊢; exact semCommon_mono _ env h v hv)
 
